@@ -6,7 +6,6 @@ use netsim::rec::install_recording_signer;
 use proptest::prelude::*;
 use serde::{Deserialize, Serialize};
 use serde_json::json;
-use std::collections::BTreeMap;
 use vcore::*;
 
 #[derive(Clone, Debug, Serialize, Deserialize)]
@@ -33,6 +32,7 @@ fn weights(tamper: bool) -> OpWeights {
 		pump: 8,
 		force_close: if tamper { 0 } else { 2 },
 		tamper_revoke: if tamper { 25 } else { 0 },
+		..OpWeights::zero()
 	}
 }
 
@@ -48,7 +48,7 @@ fn run(c: &Case, ctx: &mut Ctx, tamper: bool) -> CaseResult {
 	let mut co = CommitOracle::new(&sim);
 	co.allow_force_close = true;
 	let mut ro = RevokeOracle::new(&sim);
-	let mut keys = BTreeMap::new();
+	let mut keys = initial_keys_map(&sim);
 	let mut tags: Vec<&'static str> = vec![];
 	let mut closed = false;
 	for op in c.ops.iter() {
